@@ -524,6 +524,10 @@ func (a *area) Gen(r *hx.Rng, n int, _ string, emit func(string)) {
 		for i := 0; i < k; i++ {
 			a.randomOp(r, &known, emit)
 			count++
+			if a.dumps && r.Chance(1, 3) { // white-box stream: the three maps are compared after about every third operation
+				emit("dump " + pickNotifier(r))
+				count++
+			}
 		}
 		if a.dumps {
 			emit("dump 0")
